@@ -8,12 +8,12 @@ LEVEL = 'proof'
 TECHNIQUE = 'abstract interpretation of the helper bodies into rational functions + polynomial identity testing against the closed form; callers interpreted with the callee inlined (semantic call-site binding)'
 LEVEL_TEXT = ('Every obligation is an algebraic identity between the value the source computes (extracted by abstract interpretation, '
               'nothing executed) and the Kelvin closed form, for l = 2..7 and symbolic mu, g, R, rho, J; decided exactly in a finite field. '
-              'The agreement with the layered solver is the formula-level chain of C01 and is not re-claimed here.')
+              'The agreement with the layered solver is decided at formula level (R12.6): the exact homogeneous solution of the solver\'s static incompressible equations, with its surface condition and Love extraction, equals complex_love_general for l = 2..4 (thorough: up to 10).')
 LEVEL_NOTE = ('Trusted: the ast front-end, the interpreter, real/complex algebra without rounding. Misses a false identity with probability < 1e-15 per '
               'sample point. Numerical agreement with the radial solver output is not decided (needs integration).')
 EXPLANATION = ('R12.1 general helpers == closed form for l=2..7; R12.2 degree-2 helpers == general helpers at l=2; '
                'R12.3 callers (TidesBase wrappers, collapse_modes) interpreted with callee inlined must yield the closed-form Love number, '
-               'which decides argument order at the call sites.')
+               'which decides argument order at the call sites; R12.4 ragged multi-frequency collapse; R12.5 no in-place update of arguments; R12.6 exact layered-solver solution == complex_love_general.')
 
 
 def run(chk):
@@ -117,5 +117,9 @@ def run(chk):
     chk.floor('R12.5', 2)
     chk.floor('R12.4', 14)
     chk.note_analysed('functions', 'mode_manipulation.collapse_modes')
+    # R12.6 agreement with the layered solver's equations: exact homogeneous solution + surface condition + extraction == complex_love_general
+    from . import legacy_solver
+    legacy_solver.kelvin_from_exact_solutions(chk, repo, 'R12.6', chk.seed, chk.tier)
+    chk.floor('R12.6', 9)
     chk.floor('R12.1', 18); chk.floor('R12.2', 4); chk.floor('R12.3', 10)
     chk.assume('mu, g, R, rho > 0; compliance J complex; algebra over the reals/complex numbers (no rounding)')
